@@ -136,7 +136,13 @@ def main():
     m={"version":1,"setup_cmd":"./setup.sh",
      "hooks":{"guard":"verif-hooks","enable":"reserved name only: NO hook or instrumentation commit exists in /repo (source_commits is empty) — every check drives the public API of the crates in /repo's working tree, which the harness links by path; the only commits made to /repo are the unguarded 'fix:' commits listed in known_findings.json","baseline_off_cmd":"cd /repo && cargo nextest run --workspace --no-fail-fast --tool-config-file pb:/w/lib/nextest.toml --profile pb --test-threads 8 --offline","source_commits":hooks_commits,"add_only":True},
      "engines":[
-       {"name":"vx","path":"/verif/harness/vx","serves_properties":sorted(CLAIMED.keys()),"kind_free_text":"Rust binary: explorer-as-Scheduler (stateless DFS of the runtime's choice tree), program IR + interpreters, reference models with explicit-state BFS and NFA co-simulation, scheduler-automaton drivers, enumerators"}],
+       {"name":"vx","path":"/verif/harness/vx","serves_properties":["C01","C02","C03","C04","C05","C06","C07","C08","C14","C15","C17","C18"],"kind_free_text":"Rust lib+bin: explorer-as-Scheduler (stateless DFS of the runtime's choice tree, preemption-bounded variant), program IR + thread/async interpreters, reference models with explicit-state BFS and memoised NFA co-simulation, replay / isolation-pair / vector-clock drivers, worker-process sharding"},
+       {"name":"vx-sched","path":"/verif/harness/sched","serves_properties":["C09","C10","C11"],"kind_free_text":"scheduler-automaton driver with synthetic Tasks over all abstract choice trees up to a bound, seed-interval enumerator, reference PCT model, real bodies under the built-in schedulers"},
+       {"name":"vx-c12","path":"/verif/harness/c12","serves_properties":["C12"],"kind_free_text":"history enumerator: sequences of Shuttle runs (failure kind x persistence mode x scheduler) in forked children, emitted schedules replayed"},
+       {"name":"vx-c13","path":"/verif/harness/c13","serves_properties":["C13"],"kind_free_text":"configuration grid (step bound kind x n x scheduler x iteration budget x time limit) over bodies whose step counts are measured by the explorer"},
+       {"name":"vx-c16","path":"/verif/harness/c16","serves_properties":["C16"],"kind_free_text":"codec enumerator with an independent reference decoder: all schedules / all strings up to a bound, mutations of valid strings"},
+       {"name":"vx-c19","path":"/verif/harness/c19","serves_properties":["C19"],"kind_free_text":"E2 families (built on vx) over the shuttle-tokio implementation crate"},
+       {"name":"vx-c20","path":"/verif/harness/c20","serves_properties":["C20"],"kind_free_text":"E2 families (built on vx) over the parking_lot / dashmap wrappers, history enumeration for the deterministic collections, replay / isolation drivers for the rand and lazy_static wrappers"}],
      "checks":checks,
      "notes":"./check <id> quick|thorough rebuilds the harness against /repo's working tree, runs the engines in worker processes (16 shards), writes evidence/<id>.json and replays/<id>/*.json. Exit 0 held / 1 violation / 2 machinery error. known_findings.json lists recorded and fixed findings.",
      "not_applicable":na}
